@@ -69,6 +69,13 @@ pub fn content_addressed() {
     let s2 = dump(&a.ad);
     check_grows(&s1, &s2);
     check_names(&s2);
+    // a commit that stores no new content (only a deletion): a block without pack
+    a.m.delete_object("b").unwrap();
+    a.m.commit(None).unwrap().expect("deletion produced no block");
+    let s2b = dump(&a.ad);
+    check_grows(&s2, &s2b);
+    check_names(&s2b);
+    let s2 = s2b;
     // meld copies items byte for byte
     b.pull(&a);
     let t1 = dump(&b.ad);
